@@ -109,7 +109,7 @@ def worker():
                     rows = list(range(m.offs[br], m.offs[br + 1]))
 
                     def loss(x):
-                        ps = mod.branch(br).data_set("radius", x, None)
+                        ps = mod.select(nodes=rows).data_set("radius", x, None)
                         return jnp.sum(jx.integrate(mod, param_state=ps, **kw) ** 2)
                     theta = jnp.asarray(float(np.mean(par["r"][rows])))
                     g = np.atleast_1d(np.asarray(jax.grad(loss)(theta)))
@@ -122,7 +122,8 @@ def worker():
                 want = np.asarray([np.imag(oracle(1e-30j)) / 1e-30])
             else:
                 view = {"comp": lambda: mod.comp("all") if len(mod.nodes) else mod, "branch": lambda: mod.branch("all"),
-                        "module": lambda: mod, "two_branches": lambda: mod.branch([0, m.nb - 1])}[pattern]()
+                        "module": lambda: mod,
+                        "two_branches": lambda: mod.select(nodes=list(range(m.offs[0], m.offs[1])) + list(range(m.offs[m.nb - 1], m.offs[m.nb])))}[pattern]()
                 if key.startswith("Leak"):
                     view = {"comp": mod.Leak.comp("all"), "branch": mod.Leak.branch("all"), "module": mod.Leak,
                             "two_branches": mod.Leak.branch([0, m.nb - 1])}[pattern] if False else view
@@ -184,7 +185,12 @@ def worker():
 
             def lossflat(x):
                 return loss([{it["key"]: x}])
-            g_fwd = np.asarray(jax.jacfwd(lossflat)(jnp.asarray(flat0)))
+            if it["vs"] == "jax.sparse":
+                # JAX has no batching rule for the sparse solve: one forward-mode pass per coordinate instead of jacfwd's vmap
+                eye = np.eye(len(flat0))
+                g_fwd = np.asarray([float(jax.jvp(lossflat, (jnp.asarray(flat0),), (jnp.asarray(eye[j]),))[1]) for j in range(len(flat0))])
+            else:
+                g_fwd = np.asarray(jax.jacfwd(lossflat)(jnp.asarray(flat0)))
         except Exception as e:
             res["mismatch"].append({"kind": "raised", "key": it["key"], "voltage_solver": it["vs"], "err": type(e).__name__ + ": " + str(e)[:150]})
             continue
